@@ -75,10 +75,11 @@ class FakeBroker:
     def subscribed(self, topic: str) -> bool:
         return any(self.matches(f, topic) for f in self.filters)
 
-    def deliver(self, topic: str, payload: bytes, qos: int = 0) -> bool:
+    def deliver(self, topic: str, payload: bytes, qos: int = 0, retain: bool = False) -> bool:
         if not self.subscribed(topic) or self.client is None:
             return False
-        self.client._queue.put_nowait(aiomqtt.Message(topic, payload, qos, False, 1, None))
+        self.mid = getattr(self, "mid", 0) + 1
+        self.client._queue.put_nowait(aiomqtt.Message(topic, payload, qos, retain, self.mid, None))
         return True
 
     def break_connection(self) -> None:
@@ -167,8 +168,11 @@ _level = st.one_of(
 prefixes = st.lists(_level, min_size=1, max_size=3).map("/".join)
 mqtt_payloads = st.one_of(
     st.sampled_from(("", "1", "20.5", "lat;lon;alt", ";", "a;b;;c", "a/b", "/", "x/y;z", "åäö", "日本", "p" * 2048)),
+    # characters str.splitlines treats as line boundaries, inside the payload (MQTT payloads are not line-framed; only '\n' frames a serial line)
+    st.sampled_from(("a\x0bb", "a\x0cb", "x\x1cy", "x\x1dy", "x\x1ey", "p\x85q", "p\u2028q", "p\u2029q", "a\rb", "1;2\x0b3;4", "\x0bz")),
     gen.payloads,
 )
+_meta = st.tuples(st.sampled_from((0, 0, 1, 2)), st.sampled_from((False, False, True))).map(list)  # QoS and retain flag of a delivery
 
 
 def _msg():
@@ -178,7 +182,9 @@ def _msg():
 def _ops():
     op = gen.weighted(
         (3, _msg().map(lambda m: ["write", m])),
-        (5, _msg().map(lambda m: ["deliver", m])),
+        (5, st.tuples(_msg(), _meta).map(lambda t: ["deliver", t[0], t[1]])),
+        (2, st.tuples(st.lists(st.sampled_from(("", " ", "x", "0", "1", "3", "255", "-1", "1.5")), min_size=5, max_size=5), st.sampled_from((0, 1, 2, 3, 4)),
+                      st.sampled_from(("9;hello", "3;", "1", "", "0;255;3;0;9;z"))).map(lambda t: ["deliver_odd", t[0][:2] + [str(t[1])] + t[0][3:], t[2]])),
         (3, _msg().map(lambda m: ["echo", m])),
         (2, st.tuples(_msg(), st.sampled_from(("\xff\xfe", "\x80", "ab\xe9", "\xc3\x28"))).map(lambda t: ["deliver_bin", t[0][:5], t[1]])),
         (4, st.just(["read"])),
@@ -217,6 +223,23 @@ def enumerate_cases(tier: str):
                    "ops": [["deliver", [node, 1, 1, 0, 2, "1"]], ["read"], ["reconnect"], ["deliver", [node, 255, 3, 1, 0, "7"]], ["echo", [node, 2, 1, 1, 47, "a;b/c"]], ["reconnect"], ["deliver", [node, 255, 4, 0, 1, ""]]]}
     for fault in ("connect", "subscribe"):
         yield {"in_prefix": "in", "out_prefix": "out", "connect_fault": fault, "ops": []}
+    # what the broker replays right after the subscription (retained messages), and every QoS it may deliver with
+    for qos in (0, 1, 2):
+        for retain in (False, True):
+            yield {"in_prefix": "gw-out", "out_prefix": "gw-in", "connect_fault": "none",
+                   "ops": [["deliver", [1, 255, 0, 0, 17, "2.3.2"], [qos, retain]], ["deliver", [1, 1, 1, 0, 2, "1"], [qos, retain]], ["deliver", [0, 255, 3, 0, 9, "x"], [0, False]], ["read"], ["read"], ["read"]]}
+    # payload characters that are line boundaries for str.splitlines but not for MQTT
+    for text in ("a\x0bb", "a\x0cb", "x\x1cy", "x\x1dy", "x\x1ey", "p\x85q", "p\u2028q", "p\u2029q", "a\rb", "1;2\x0b3;4"):
+        yield {"in_prefix": "in", "out_prefix": "out", "connect_fault": "none", "ops": [["echo", [7, 1, 1, 0, 47, text]], ["write", [7, 255, 3, 1, 9, text]], ["deliver", [7, 1, 1, 0, 47, text]], ["read"]]}
+    # topics with an empty or odd level: the line read back is spelled by the levels, nothing may shift between payload and header
+    for pos in range(5):
+        for text in ("", " ", "x"):
+            if pos == 2:
+                continue
+            for payload in ("9;hello", "3;", "1"):
+                levels = ["3", "255", "3", "0", "9"]
+                levels[pos] = text
+                yield {"in_prefix": "gw/out", "out_prefix": "gw/in", "connect_fault": "none", "ops": [["deliver_odd", levels, payload], ["deliver", [1, 1, 1, 0, 2, "1"]], ["read"]]}
     for cmd, child in ((0, 1), (1, 1), (2, 1), (3, 255), (4, 255)):
         for ack in (0, 1):
             yield {"in_prefix": "x/in", "out_prefix": "x/out", "connect_fault": "none",
@@ -297,7 +320,7 @@ def run_case(case: dict) -> Outcome:
                 if topic != want_topic:
                     return fail("publish-topic", f"{where}: published to {topic!r}, expected {want_topic!r}")
                 got_payload = "" if payload is None else (payload.decode() if isinstance(payload, bytes) else payload)
-                if got_payload != msg[5]:
+                if got_payload != msg[5] and not (msg[5] != msg[5].rstrip() and got_payload == msg[5].rstrip()):  # (trailing whitespace is outside the payload domain)
                     return fail("publish-payload", f"{where}: published payload {str(got_payload)[:80]!r}, expected {msg[5][:80]!r}")
                 if qos != msg[3]:
                     return fail("publish-qos", f"{where}: published with qos {qos}, ack flag is {msg[3]}")
@@ -333,7 +356,10 @@ def run_case(case: dict) -> Outcome:
                 msg = op[1]
                 topic = f"{in_prefix}/{msg[0]}/{msg[1]}/{msg[2]}/{msg[3]}/{msg[4]}"
                 payload = msg[5].encode("utf-8") if kind == "deliver" else op[2].encode("latin-1")
-                if not broker.deliver(topic, payload, msg[3]):
+                meta = op[2] if kind == "deliver" and len(op) > 2 else [msg[3], False]
+                if meta[1]:
+                    info["kinds"].add("retained")
+                if not broker.deliver(topic, payload, meta[0], bool(meta[1])):
                     return fail("not-subscribed", f"{where}: topic {topic!r} matches none of the subscriptions {broker.filters!r}")
                 if kind == "deliver":
                     expected.append(("line", f"{msg[0]};{msg[1]};{msg[2]};{msg[3]};{msg[4]};{msg[5]}"))
@@ -342,6 +368,36 @@ def run_case(case: dict) -> Outcome:
                         info["err_between"] = True
                     expected.append(("error", "undecodable payload"))
                 await settle()
+            elif kind == "deliver_odd":
+                if dead:
+                    continue
+                levels, text = op[1], op[2]
+                if not broker.deliver(f"{in_prefix}/" + "/".join(levels), text.encode("utf-8"), 0):
+                    continue  # no subscription matches such a topic: the broker sends nothing
+                # drain what is owed first, then: the literal line, a transport error, or nothing at all - but never another line
+                await settle()
+                while expected:
+                    bad = await do_read(where)
+                    if bad is not None:
+                        return bad
+                sentinel = f"1;1;1;0;2;sentinel{idx}"
+                broker.deliver(f"{in_prefix}/1/1/1/0/2", f"sentinel{idx}".encode(), 0)
+                await settle()
+                literal = ";".join(levels) + ";" + text
+                try:
+                    got = await asyncio.wait_for(transport.read(), 5.0)
+                except asyncio.TimeoutError:
+                    return fail("read-hangs:after-odd-topic", f"{where}: nothing can be read after a message on an odd topic")
+                except TransportError:
+                    expected.append(("line", sentinel))
+                    continue
+                except Exception as err:  # noqa: BLE001
+                    return fail(f"read-leak:{type(err).__name__}", f"{where}: read raised {err!r}")
+                if got.rstrip("\n") == sentinel:
+                    continue
+                if got.rstrip("\n") != literal.rstrip("\n") and got != literal:
+                    return fail("odd-topic-misread", f"{where}: topic levels {levels!r} + payload {text!r} were read back as {got!r} (the levels and payload spell {literal!r})")
+                expected.append(("line", sentinel))
             elif kind == "broker_error":
                 if dead:
                     continue
